@@ -21,7 +21,7 @@ m = {
   {"name": "snapshot", "path": "harness/inpkg/zz_verif_snapshot_test.go", "serves_properties": ["C12"], "kind_free_text": "crash points and overlapping commands of the state snapshot write (real clock)"},
   {"name": "control", "path": "harness/inpkg/zz_verif_control_test.go + lean/KamalProxy/Driver/Control.lean", "serves_properties": ["C01","C02","C04","C05","C06","C08","C09","C10","C11","C14","C16","C17","C18"], "kind_free_text": "command histories against a real Router in a synctest bubble with an in-memory network, diffed against the Lean control-plane model"},
   {"name": "rewrite", "path": "harness/inpkg/zz_verif_rewrite_test.go + lean/KamalProxy/Model/Rewrite.lean", "serves_properties": ["C13"], "kind_free_text": "request targets, headers and bodies through the full handler chain to an in-memory target; what the target saw and what the client got, diffed against the URL/header model"},
-  {"name": "faults", "path": "harness/inpkg/zz_verif_faults_test.go + lean/KamalProxy/Model/Faults.lean", "serves_properties": ["C13","C15","C19"], "kind_free_text": "byte-level scripted target behind the full stack with a real http.Server front and a raw client (faults at every point of the response, informational responses, upgrades, Expect: 100-continue, client aborts) with the JSON access log captured"},
+  {"name": "faults", "path": "harness/inpkg/zz_verif_faults_test.go + lean/KamalProxy/Model/Faults.lean", "serves_properties": ["C13","C14","C15","C19"], "kind_free_text": "byte-level scripted target behind the full stack with a real http.Server front and a raw client (faults at every point of the response, informational responses, upgrades, Expect: 100-continue, client aborts) with the JSON access log captured"},
   {"name": "soak", "path": "harness/inpkg/zz_verif_soak_test.go + checklib/soak_engine.py", "serves_properties": ["C17","C18"], "kind_free_text": "uncontrolled concurrent runs of a race-enabled build (commands, plain/cookie/POST/upgraded/stalled clients, probe flips) watching for race reports, panics and operations that do not return"},
   {"name": "cli", "path": "checklib/cli_engine.py + lean/KamalProxy/Model/Cli.lean", "serves_properties": ["C20"], "kind_free_text": "black-box runs of the built kamal-proxy binary (environment/flag matrices, deploy validation against a connection-counting socket, a live proxy with loopback targets)"},
  ],
